@@ -5,10 +5,12 @@ bit-exact correspondence of _duration_to_nb_windows / split() with the
 Flocq model."""
 import math
 import os
+from fractions import Fraction
 import shutil
 
 from .. import common as C
 from .tok import exc_code
+from ..py2coq import misctie
 
 
 def grid_sweep(rows, amax, tag):
@@ -36,11 +38,23 @@ def grid_sweep(rows, amax, tag):
         shutil.rmtree(d, ignore_errors=True)
 
 
+def exact_count(d, wq, up):
+    """ceil (up) or floor of d / w in exact arithmetic; near-integers count as the integer; None = not judged"""
+    q = Fraction(d) / wq
+    n = round(q)
+    dist = abs(q - n)
+    if dist <= Fraction(5, 10 ** 11):
+        return int(n)
+    if dist < Fraction(1, 10 ** 6):
+        return None
+    return int(math.ceil(q)) if up else int(math.floor(q))
+
+
 def run(prop, tier):
     res = C.Result(prop, tier)
     proof = C.proof_step(["Props/C06.v"])
     proof["trusted"] = [
-        "model Split/Duration.v written by hand from core.py (_duration_to_nb_windows, the parameter block of split()); tied by bit-exact correspondence on the ms grid and on random doubles, not by translation",
+        "model Split/Duration.v written by hand from core.py; _duration_to_nb_windows, _EPSILON and the three call sites in split() are translated from /repo on every run (harness/py2coq/misc.py, group dur) and proved equal to the model for all inputs (TieDur.v); the rest of split()'s parameter block is tied by bit-exact correspondence",
         "Flocq 4.1 binary_float 53 1024 (Bdiv, Bplus, Bmult, mode_NE) as the semantics of Python float arithmetic; floor/ceil/int/round defined on (mantissa, exponent) in Z",
         "vm_compute reflection for the grid rows (finite domain stated in each theorem)",
         "extraction (ExtrOcamlBasic only) + OCaml driver, cross-checked by vm_compute on a sample",
@@ -53,8 +67,9 @@ def run(prop, tier):
     rows = [1, 2, 5, 7, 13, 25, 30, 33, 40, 64, 100, 125, 160, 200, 250, 500] if quick else list(range(1, 201))
     amax = 600 if quick else 5000
     failed, details = grid_sweep(rows, amax, tier)
-    proof["tie_obligations"] = ["grid row b=%d ms, durations 0..%d ms" % (b, amax) for b in rows]
-    proof["undischarged"] = ["grid row b=%d" % b for b in failed]
+    tie = misctie.tie_group("dur")
+    proof["tie_obligations"] = ["grid row b=%d ms, durations 0..%d ms" % (b, amax) for b in rows] + tie["obligations"]
+    proof["undischarged"] = ["grid row b=%d" % b for b in failed] + ([] if tie["ok"] else tie["obligations"])
     viol = None
     cases, impl, meta = [], [], []
     # ---- _duration_to_nb_windows, ms grid (exact oracle) + random doubles (bit-exact with the model)
@@ -98,6 +113,9 @@ def run(prop, tier):
             sil = r.choice([0.3, 0, 0.05, 0.1, -0.01, 0.29, 1, r.randint(0, 600) / 1000])
             aw = r.choice([0.05, 0.01, 0.1, 0.02, 0.03, 0, -0.1, 1e-5, 0.0625, r.randint(1, 200) / 1000])
             rate = r.choice([10, 100, 8000, 16000, 44100])
+            if r.random() < 0.3 and aw > 0:
+                # durations that are whole multiples of the window (quotients that are integers up to float noise)
+                mind = r.randint(1, 6) * aw; maxd = r.randint(1, 12) * aw; sil = r.randint(0, 5) * aw
             use_reader = r.random() < 0.25
             captured.clear()
             if use_reader:
@@ -121,6 +139,26 @@ def run(prop, tier):
                     mind, maxd, sil, ("AudioReader input with block of %d samples at %d Hz" % (W, rate)) if use_reader else "analysis_window=%r, sampling_rate=%d" % (aw, rate),
                     "was accepted (window counts %r)" % (got[1],) if got[0] == 0 else "raised error code %r" % (got[1],)),
                         "min_dur": mind, "max_dur": maxd, "max_silence": sil, "analysis_window": None if use_reader else aw, "rate": rate, "AudioReader_input": use_reader}
+            # the statement's window counts, in exact rational arithmetic on the values given (w = the reader's block duration
+            # for an AudioReader input, the analysis_window argument otherwise); quotients within 5e-11 of an integer count as
+            # that integer, quotients farther than 1e-6 from every integer are exact ceil / floor, the band between is not judged
+            if viol is None and not must_reject:
+                wq = Fraction(W, rate) if use_reader else Fraction(aw)
+                exp = [exact_count(mind, wq, True), exact_count(maxd, wq, False), exact_count(sil, wq, False)]
+                if None not in exp:
+                    exp[0] = max(exp[0], 1)
+                    reject = exp[0] > exp[1] or exp[2] >= exp[1]
+                    if reject and got[0] == 0:
+                        viol = {"what": "split(min_dur=%r, max_dur=%r, max_silence=%r, window %s s) was accepted with window counts %r, but min_dur needs %d window(s), max_dur allows %d and max_silence spans %d: the statement requires ValueError" % (
+                            mind, maxd, sil, float(wq), got[1][:3], exp[0], exp[1], exp[2])}
+                    elif not reject and got[0] == 1:
+                        viol = {"what": "split(min_dur=%r, max_dur=%r, max_silence=%r, window %s s) raised error code %r although the window counts %r are admissible" % (
+                            mind, maxd, sil, float(wq), got[1], exp)}
+                    elif not reject and got[1][:3] != exp:
+                        viol = {"what": "split(min_dur=%r, max_dur=%r, max_silence=%r, window %s s%s) derives (min, max, max_silence) = %r windows, the statement gives ceil/floor/floor = %r" % (
+                            mind, maxd, sil, float(wq), ", AudioReader input" if use_reader else ", analysis_window argument", got[1][:3], exp)}
+                    if viol is not None:
+                        viol.update({"min_dur": mind, "max_dur": maxd, "max_silence": sil, "analysis_window": None if use_reader else aw, "rate": rate, "AudioReader_input": use_reader})
             cases.append(case); impl.append(got)
             meta.append({"split": {"min_dur": mind, "max_dur": maxd, "max_silence": sil, "analysis_window": (W / rate if use_reader else aw), "rate": rate, "AudioReader_input": use_reader}})
     finally:
@@ -132,12 +170,14 @@ def run(prop, tier):
     res.coverage.update({"evaluations": len(cases) + n_grid, "distinct_nontrivial": len({C.dumps(c) for c, o in zip(cases, outs) if o[0] == 0 and o[1] != 0}),
                          "rule": "bit-exact comparison with the Flocq model of _duration_to_nb_windows on seeded random doubles (incl. quotients not representable in binary) and of split()'s derived (min_length, max_length, max_silence, block size) or ValueError, for bytes and AudioReader inputs (%d accepted, %d rejected); exact integer oracle ceil/floor on the millisecond grid; non-trivial = distinct accepted case with a non-zero result" % (acc, len(outs) - acc),
                          "samples": [{"case": meta[3], "model": outs[3]}, {"case": meta[-3], "model": outs[-3]}],
-                         "vm_compute_crosschecked": vm, "correspondence_mismatches": len(mism),
+                         "vm_compute_crosschecked": vm, "correspondence_mismatches": len(mism), "tie_translation": tie["detail"][:300],
                          "grid_rows_proved_this_run": len(rows) - len(failed), "grid_amax_ms": amax})
     if viol:
         res.add_violation(viol["what"], viol)
-    elif mism or failed:
+    elif mism or failed or not tie["ok"]:
         what = []
+        if not tie["ok"]:
+            what.append("translation tie broken: " + tie["detail"][:500])
         if failed:
             what.append("grid rows no longer proved: %r (%s)" % (failed[:5], details[-200:]))
         if mism:
